@@ -3,8 +3,8 @@
    offered transitions never fail validation; a successful step re-establishes the store and clock
    invariants; a step never returns a half-applied state. *)
 From Coq Require Import List ZArith Bool.
-From JSL Require Import Base.Res Base.ListX SM.Types SM.Util SM.Handler SM.Step SM.Middleware SM.Inv SM.Example
-  SMP.Offers SMP.Main SMP.Reflect SMP.StepInv SMP.Atomic SMP.Clock SMP.ClockMain.
+From JSL Require Import Base.Res Base.ListX SM.Types SM.Util SM.Handler SM.Step SM.Middleware SM.Inv SM.Example SM.ExampleHang
+  SMP.Offers SMP.Main SMP.Reflect SMP.StepInv SMP.Atomic SMP.Clock SMP.ClockMain SMP.Hang.
 Import ListNotations.
 
 (* accepting the offered transition cannot be rejected by the transition tables *)
@@ -29,6 +29,42 @@ Theorem C05_failure_is_clean :
   forall sigma i fuel x0 trs tm xf lg, step sigma i fuel x0 trs tm = SFail xf lg -> same_shop xf x0.
 Proof. exact step_fail_returns_input. Qed.
 
-(* C05_refuted: the full statement fails already on a compiled instance - an action in the action space
-   (decline) on a reachable state runs out of any finite fuel we tried in Coq; the implementation never
-   returns on it (known finding F-C05-hang-ordered-standalone, replayed by the harness) *)
+(* C05_refuted: "every offered action can be taken and the call returns" is FALSE of the faithful model, for
+   a document the compiler accepts (2 jobs, 2 machines, 1 AGV, FIFO standalone input buffer; SM/ExampleHang.v is
+   produced from the implementation's own compile output). After declining the first offer, accepting the second
+   (send the AGV to the job that is NOT at the head of the FIFO buffer) makes state.step run out of EVERY fuel:
+   the AGV cycles WAITINGPICKUP -> WAITINGPICKUP at a constant clock. The implementation never returns on this
+   input (known finding F-C05-hang-ordered-standalone; the C05 check replays it on every run). *)
+Theorem C05_refuted_step :
+  forall fuel, step hang_sigma hang_inst fuel hang_pre hang_trs TMJumpToEvent = SOutOfFuel.
+Proof.
+  intros fuel.
+  destruct (step_prefix hang_sigma hang_inst hang_pre hang_trs TMJumpToEvent) as [[[x2 timed] lg1]|] eqn:Ep;
+    [|vm_compute in Ep; discriminate].
+  rewrite (step_prefix_eq _ _ _ _ _ _ _ _ _ Ep).
+  assert (Hp : exists xs ts lgs lg', passes hang_sigma hang_inst 1 x2 timed lg1 = Some (xs, ts, lgs) /\ ts <> []
+                                /\ loop_pass hang_sigma hang_inst xs ts lgs = Some (xs, ts, lg')).
+  { vm_compute in Ep. inversion Ep; subst x2 timed lg1. clear Ep.
+    do 4 eexists. split; [vm_compute; reflexivity|]. split; [discriminate|]. vm_compute. reflexivity. }
+  destruct Hp as [xs [ts [lgs [lg' [H1 [H2 H3]]]]]].
+  eapply stem_and_lasso; eauto.
+Qed.
+Print Assumptions C05_refuted_step.
+
+(* ... and this input is reached through the middleware from the compiled initial state: reset, decline;
+   the remaining single offer is the fatal one, and accepting it never returns, whatever the fuel *)
+Theorem C05_refuted_reachable :
+  exists r0 m0 lg0 r m lg,
+    mw_reset hang_sigma hang_inst 50 hang_init 5%Z false (mkMw 5%Z 0 0 false) = MOk r0 m0 lg0
+    /\ mw_step hang_sigma hang_inst 50 r0 m0 0%Z = MOk r m lg
+    /\ wfs_b hang_inst (r_x r) = true /\ clock_b (r_x r) = true
+    /\ forall fuel, mw_step hang_sigma hang_inst fuel r m 1%Z = MOutOfFuel.
+Proof.
+  do 6 eexists. split; [vm_compute; reflexivity|]. split; [vm_compute; reflexivity|].
+  split; [vm_compute; reflexivity|]. split; [vm_compute; reflexivity|].
+  intros fuel. unfold mw_step. cbn [r_offers r_x].
+  change (step hang_sigma hang_inst fuel _ _ TMJumpToEvent) with
+    (step hang_sigma hang_inst fuel hang_pre hang_trs TMJumpToEvent).
+  rewrite C05_refuted_step. reflexivity.
+Qed.
+Print Assumptions C05_refuted_reachable.
